@@ -18,14 +18,16 @@ const (
 	mC = 2
 	mM = 3 // defines and EXPORTS a growable memory (1..3 pages, default capacity: growth reallocates) and ld(addr)
 	mN = 4 // imports M's memory and M.ld; grows the memory, writes into it, calls ld through the import and through a table slot
-	mD = 5 // pseudo module: an instance of D whose instantiation FAILED after it had written into A's table
+	mH = 5 // HOST module (NewHostModuleBuilder): three Go closures over one heap-allocated state object
+	mG = 6 // guest importing H's functions; calls them directly and through a table slot
+	mD = 7 // pseudo module: an instance of D whose instantiation FAILED after it had written into A's table
 
-	nMods = 5
+	nMods = 7
 )
 
-var modNames = [nMods]string{"A", "B", "C", "M", "N"}
+var modNames = [nMods]string{"A", "B", "C", "M", "N", "H", "G"}
 
-func modIndex(c byte) int { return strings.IndexByte("ABCMN", c) }
+func modIndex(c byte) int { return strings.IndexByte("ABCMNHG", c) }
 
 // function values a slot can hold
 const (
@@ -63,6 +65,7 @@ const (
 )
 
 type state struct {
+	HostVia     bool // H was instantiated with HostModuleBuilder.Instantiate (its anonymous CompiledModule is closed with the instance) instead of Compile + InstantiateModule
 	NoCache     bool // runtime created without a CompilationCache (Runtime.Close closes the engine)
 	RtClosed    bool
 	CacheClosed bool // engine closed (cache closed, or runtime closed in no-cache mode)
@@ -91,6 +94,7 @@ func (s state) key() string {
 		}
 	}
 	bit(s.NoCache)
+	bit(s.HostVia)
 	bit(s.RtClosed)
 	bit(s.CacheClosed)
 	b.WriteByte('|')
@@ -140,6 +144,9 @@ func (s state) String() string {
 	if s.CacheClosed {
 		p = append(p, "engine-closed")
 	}
+	if s.HostVia {
+		p = append(p, "H-via-builder.Instantiate")
+	}
 	if s.NoCache {
 		p = append(p, "no-cache")
 	}
@@ -173,6 +180,7 @@ const (
 	kGC
 	kReenter // call X.reenter: the host function it calls performs a close while X's call is outstanding
 	kStore
+	kHostReenter // G calls H.f1 whose Go closure closes H's instance (A=0) or H's CompiledModule (A=1) and forces a collection while the call is outstanding
 	kGrowGuest   // N executes memory.grow 1 on the memory it imports from M
 	kGrowHost    // the host grows M's memory by one page through api.Memory.Grow
 	kMemWrite    // N stores marker values at address 100 and at offset 100 of the last page
@@ -274,6 +282,8 @@ func (o op) String() string {
 			return fmt.Sprintf("store %s -> %s (guest: %s.%s)", fnNames[d.Fn], slotNames[d.Slot], modNames[d.Exec], d.Put)
 		}
 		return fmt.Sprintf("store %s -> %s (host: %s.%s() -> %s.%s(ref))", fnNames[d.Fn], slotNames[d.Slot], modNames[d.Src], d.Get, modNames[slotHolder[d.Slot]], d.Put)
+	case kHostReenter:
+		return fmt.Sprintf("call G.call_f1{H's Go closure: %s H; forced-gc}", actionNames[o.A])
 	case kGrowGuest:
 		return "N: memory.grow 1 (memory imported from M)"
 	case kGrowHost:
@@ -322,6 +332,7 @@ func allOps() []op {
 		o = append(o, op{K: kCloseFiller, X: i})
 	}
 	o = append(o, op{K: kGrowGuest}, op{K: kGrowHost}, op{K: kMemWrite})
+	o = append(o, op{K: kHostReenter, A: aCloseInst}, op{K: kHostReenter, A: aCloseComp})
 	return o
 }
 
@@ -333,6 +344,9 @@ func (s state) actionEnabled(a, x int) bool {
 	case aCloseInst:
 		return s.usable(x)
 	case aCloseComp:
+		if x == mH && s.HostVia {
+			return false // the host has no handle to the anonymous CompiledModule
+		}
 		// closing the code of a module that was never instantiated cannot concern any instance
 		return !s.Comp[x] && !s.Drop[x] && s.Inst[x] != instNone
 	case aCloseRt:
@@ -351,7 +365,7 @@ func (s state) enabled(o op) bool {
 		// each named module is instantiated at most once per history (see NOTES: limits); the attempt may fail
 		// with an ordinary error (compiled module closed, runtime closed, import target closed).
 		// (the shared-memory graph MN is a world of its own: A, B, C are not added to it)
-		return s.Inst[o.X] == instNone && !s.Drop[o.X] && s.Inst[mM] == instNone
+		return s.Inst[o.X] == instNone && !s.Drop[o.X] && s.Inst[mM] == instNone && s.Inst[mH] == instNone
 	case kFresh:
 		return true
 	case kCloseInst:
@@ -374,6 +388,8 @@ func (s state) enabled(o op) bool {
 			return s.usable(d.Exec)
 		}
 		return s.usable(d.Src) && s.usable(slotHolder[d.Slot])
+	case kHostReenter:
+		return s.usable(mG) && s.actionEnabled(o.A, mH)
 	case kGrowGuest:
 		return s.Inst[mM] != instNone && s.usable(mN) && s.MemGrown < 2
 	case kGrowHost:
@@ -395,6 +411,12 @@ func (s *state) applyAction(a, x int) {
 	switch a {
 	case aCloseInst:
 		s.Inst[x] = instClosed
+		if x == mH && s.HostVia && !s.Comp[x] {
+			s.Comp[x] = true // closed together with the instance
+			if !s.CacheClosed {
+				s.Stale = true
+			}
+		}
 	case aCloseComp:
 		s.Comp[x] = true
 		if !s.CacheClosed {
@@ -405,6 +427,9 @@ func (s *state) applyAction(a, x int) {
 		for i := range s.Inst {
 			if s.Inst[i] == instOpen {
 				s.Inst[i] = instClosed
+				if i == mH && s.HostVia {
+					s.Comp[i] = true // the anonymous CompiledModule is closed with the instance
+				}
 			}
 		}
 		if s.NoCache {
@@ -443,6 +468,8 @@ func (s state) apply(o op) state {
 	case kStore:
 		d := storeDefs[o.X]
 		n.Slots[d.Slot] = d.Fn
+	case kHostReenter:
+		n.applyAction(o.A, mH)
 	case kGrowGuest, kGrowHost:
 		n.MemGrown++
 	case kMemWrite:
@@ -485,6 +512,9 @@ func (s state) reachable() [nMods + 1]bool {
 	if s.Inst[mN] != instNone && r[mN] {
 		r[mM] = true // N imports M's function and memory
 	}
+	if s.Inst[mG] != instNone && r[mG] {
+		r[mH] = true // G imports H's functions
+	}
 	return r
 }
 
@@ -509,11 +539,13 @@ func (s state) dangling() []int {
 type initial struct {
 	Mods    string `json:"mods"` // subset of "ABC" instantiated (in this order) before the history starts
 	NoCache bool   `json:"nocache"`
+	HostVia bool   `json:"host_via_builder_instantiate,omitempty"`
 }
 
 func (in initial) state() state {
 	var s state
 	s.NoCache = in.NoCache
+	s.HostVia = in.HostVia
 	for _, c := range in.Mods {
 		s.Inst[modIndex(byte(c))] = instOpen
 	}
@@ -533,6 +565,9 @@ func (h history) String() string {
 	c := "cache"
 	if h.Init.NoCache {
 		c = "no-cache"
+	}
+	if h.Init.HostVia {
+		c += ";H via builder.Instantiate"
 	}
 	return fmt.Sprintf("[%s;%s] %s", h.Init.Mods, c, strings.Join(p, " ; "))
 }
